@@ -37,6 +37,22 @@ CLAIMS = {
              "CPython), z3. Unverified: str/bytes/bytearray/unicode indexing helpers, SetItemInt/DelItemInt, slicing (SliceObject), "
              "helper selection in IndexNode.",
         ref="4 C15"),
+    "C13": dict(
+        text="Proof (a) on the abstract object model (bytes objects as length + char array) that __Pyx_PyBytes_SingleTailmatch - the helper "
+             "behind bytes.startswith / bytes.endswith on typed receivers, taken from the generated module - returns for a bytes affix and "
+             "ALL Py_ssize_t start / end exactly what CPython's _Py_bytes_tailmatch returns (ADJUST_INDICES clamping, the endswith "
+             "window, empty affixes, start beyond the end) and that its memcmp stays inside both objects; (b) for a catalogue of builtin "
+             "calls on C integers (abs, min / max with 2-4 operands of mixed C types and constants, nested min/max, bool()) the C function "
+             "the working-tree compiler emits returns, for ALL argument values, the value Python's semantics give the same source text "
+             "(reference evaluator dv/pyref.py over the catalogue's own ast, validated against CPython every run). Kernel: these helpers "
+             "and this catalogue only.",
+        note="Trusted: dv C front end, dv/pyobj.py (PyBytes_AS_STRING / PyBytes_GET_SIZE contracts: len + 1 readable chars), memcmp's C "
+             "contract, the transcription of CPython 3.12 _Py_bytes_tailmatch (validated against bytes.startswith/endswith every run), z3. "
+             "Recorded finding: abs() of the most negative C integer (witness replayed every run). NOT covered: non-bytes affixes (buffer "
+             "protocol path), tuples of affixes, str methods (delegated to CPython's PyUnicode_Tailmatch), list/dict/set/bytearray method "
+             "helpers (pop, pop_index, dict_getitem_default, py_dict_pop, ...), len/sum/any/all/sorted/isinstance/ord/chr and the "
+             "type-constructor replacements, wrong-type / None / subclass argument paths, Builtin.py signatures.",
+        ref="4 C13"),
     "C14": dict(
         text="Proof, for a catalogue of `for i in range(...)` / `reversed(range(...))` loops over C integers (start/stop/constant step "
              "of both signs, |step| in 1..3, else clause, break), that the C function the working-tree compiler emits runs exactly "
